@@ -17,6 +17,10 @@ are those dicts.  Contracts evaluated on the real functions:
                 column arithmetic, str/repr/tolist, column reads, subset reads, concatenation, filtered write - and then
                 the table's nine fields, read directly and through subsets, still == the records (and a fresh read too);
                 results of the interval / reference-length / write steps == the spec values each time
+  chain         selection chains on ONE freshly read table (or on every chunk of a chunked read): a selection of a selection
+                (of a selection) - filter by mask / column predicate / index list, reorder, unit / strided / reversed / empty
+                slice - optionally with the intermediate table read or written in between; the final table == the records the
+                composed selection picks, in memory, after write (independent decoder), and in memory again after the write
 
 Scope: see `col.bounds` / `rule` in run().
 """
@@ -772,8 +776,300 @@ def history_specs(tier):
     return out
 
 
+# ------------------------------------------------------------------- selection chains (selection of a selection ...)
+# A chain is a short history of record selections on ONE freshly read table (or on every chunk of a chunked read):
+# filter, then slice the filtered table, then ... ; between two selections the intermediate table may be read (all nine
+# fields) or written to a side file.  The final table must decode, in memory and after bnp.open(y.bam,'w').write, to
+# exactly the records that the composed selection picks ("writing records back, whole or filtered, gives a BAM that
+# decodes to the same records").
+PREDS = {"forward": (lambda r: not r["flag"] & 16, lambda e: (e.flag & 16) == 0),
+         "mapq>=30": (lambda r: r["mapq"] >= 30, lambda e: e.mapq >= 30),
+         "pos<1000": (lambda r: r["pos"] < 1000, lambda e: e.position < 1000)}
+
+
+def chain_local(recs, sel):
+    """indices (into the current table, whose records are `recs`) that the selection picks; on top of apply_sel:
+    ["pred", name] (mask that the library computes from a column), ["mod", m, r, keep] (mask i % m == r, or its
+    complement), ["drop", "first"|"mid"|"last"], ["rev"], ["rot"] (index arrays) - these are defined for every table
+    length, so they can be applied to every chunk of a chunked read"""
+    n = len(recs)
+    k = sel[0]
+    if k == "pred":
+        return [i for i, r in enumerate(recs) if PREDS[sel[1]][0](ref.normalise(r))]
+    if k == "mod":
+        return [i for i in range(n) if (i % sel[1] == sel[2]) == bool(sel[3])]
+    if k == "drop":
+        d = {"first": 0, "mid": n // 2, "last": n - 1}[sel[1]]
+        return [i for i in range(n) if i != d]
+    if k == "rev":
+        return list(range(n))[::-1]
+    if k == "rot":
+        return [(i * 7 + 3) % n for i in range(n)]
+    return apply_sel(recs, sel)
+
+
+def chain_lib(e, sel, recs):
+    import numpy as np
+    k = sel[0]
+    if k == "pred":
+        return e[PREDS[sel[1]][1](e)]
+    if k in ("mod", "drop"):
+        local = set(chain_local(recs, sel))
+        return e[np.array([i in local for i in range(len(recs))], dtype=bool)]
+    if k in ("rev", "rot"):
+        return e[np.array(chain_local(recs, sel), dtype=int)]
+    return lib_select(e, sel)
+
+
+def chain_class(sel, local):
+    """(class of the step, state of the table it produces) for the signature.  step: filtered (records dropped, order
+    kept: mask or ascending index list), reordered, sliced (unit step), strided; state: sliced (consecutive records of
+    the parent), filtered (ascending with gaps), reordered"""
+    k = sel[0]
+    if k == "whole":
+        return None, None
+    if k == "slice":
+        st = sel[1][2]
+        if st in (None, 1):
+            return "sliced", "sliced"
+        return "strided", ("filtered" if st > 0 else "reordered")
+    if k in ("rev", "rot"):
+        return "reordered", "reordered"
+    if k == "index":
+        c = "filtered" if all(a < b for a, b in zip(local, local[1:])) else "reordered"
+        return c, c
+    return "filtered", "filtered"
+
+
+STATE_RANK = {"fresh": 0, "sliced": 1, "filtered": 2, "reordered": 3}
+
+
+def chain_compare(col, bc, e, want_idx, prefix, case):
+    """the nine fields of `e` == the records `want_idx` of the file; all fields collapse into ONE signature (the known
+    classes - refID -1, n_cigar_op >= 16384 - keep theirs)"""
+    scratch = Collector("C16", col.tier, col.seed, "scratch")
+    compare(scratch, observe(scratch, e, prefix, case, bc), select(bc.exp, want_idx), prefix, case, one_sig=bc.one_sig)
+    bad = []
+    for f in scratch.failures:
+        if f["signature"].startswith(SIG_UNMAPPED) or f["signature"] == SIG_BIGCIGAR:
+            col.fail(f["signature"], f["case"], f["message"])
+        else:
+            bad.append(f)
+    if bad:
+        col.fail(prefix + ":fields-differ", case, "file records %r; %s: %s (%d field checks failed: %s)" % (
+            want_idx[:20], bad[0]["signature"][len(prefix) + 1:], bad[0]["message"][-300:], len(bad),
+            ", ".join(f["signature"][len(prefix) + 1:] for f in bad[:9])))
+    return not bad
+
+
+def chain_check_written(col, bc, path, want_idx, prefix, case, readback=True):
+    import bionumpy as bnp
+    data = open(path, "rb").read()
+    want = [ref.normalise(bc.records[i]) for i in want_idx]
+    dec = col.guarded(lambda: ref.decode_bam(data), prefix + ":output-not-decodable-per-spec", case)
+    if dec is None:
+        return
+    text, refs, recs = dec
+    exp_text = ref.sam_header_text(bc.refs) if bc.text is None else bc.text
+    col.check(refs == bc.refs and text == exp_text, prefix + ":header-differs", case,
+              "refs %r expected %r; text equal: %r" % (refs[:4], bc.refs[:4], text == exp_text))
+    col.check(data.endswith(ref.BGZF_EOF), prefix + ":no-bgzf-eof-block", case, "last bytes %r" % data[-28:].hex())
+    g_main = [[r[k] for k in MAIN] for r in recs]
+    w_main = [[r[k] for k in MAIN] for r in want]
+    if not col.check(g_main == w_main, prefix + ":records-differ", case,
+                     "%d records written, %d expected (file records %r); %s" % (len(recs), len(want), want_idx[:20], first_diff(g_main, w_main))):
+        return
+    aux = ("next_ref", "next_pos", "tlen", "tags")
+    g_aux = [[r[k] for k in aux] for r in recs]
+    w_aux = [[r[k] for k in aux] for r in want]
+    col.check(g_aux == w_aux, prefix + ":mate-fields-or-tags-differ", case, first_diff(g_aux, w_aux))
+    if not readback:
+        return
+
+    def rd():
+        with bnp.open(path) as f:
+            return f.read()
+    e = col.guarded(rd, prefix + ":readback", case)
+    if e is None:
+        return
+    n = col.guarded(lambda: len(e), prefix + ":readback:len", case)
+    if col.check(n == len(want_idx), bc.one_sig or prefix + ":readback:record-count", case, "got %r expected %d" % (n, len(want_idx))):
+        chain_compare(col, bc, e, want_idx, prefix + ":readback", case)
+
+
+def chain_run(col, bc, mode, steps, case):
+    """one chain on freshly read table(s).  Signatures: chain:<class of the last selection>-of-<state of the table it was
+    applied to>:<aspect>; state = fresh | sliced | filtered | reordered (the most disordered selection so far), prefixed
+    with "written+" once the table has been written"""
+    import bionumpy as bnp
+    out = os.path.join(bc.tmp, "chain_out.bam")
+    side = os.path.join(bc.tmp, "chain_side.bam")
+    for p in (out, side):
+        if os.path.exists(p):
+            os.unlink(p)
+    if mode == "whole":
+        def rd():
+            with bnp.open(bc.path) as f:
+                return [f.read()]
+    else:
+        assert mode[1] >= max(bc.sizes)
+
+        def rd():
+            return read_chunked(bc, mode[1])
+    tables = col.guarded(rd, "chain:read", case)
+    if tables is None:
+        return
+    if not col.check(sum(len(t) for t in tables) == len(bc.records), bc.one_sig or "chain:read:record-count", case,
+                     "%r records in the tables, file has %d" % ([len(t) for t in tables], len(bc.records))):
+        return
+    finals, want_all, a = [], [], 0
+    name = "unselected-of-fresh"
+    for t in tables:
+        cur = list(range(a, a + len(t)))
+        a += len(t)
+        e = t
+        state, written = "fresh", ""
+        name = "unselected-of-fresh"
+        for st in steps:
+            if st[0] == "read":
+                if not chain_compare(col, bc, e, cur, "chain:" + name + ":memory", case):
+                    return
+                continue
+            if st[0] == "write":
+                pfx = "chain:write-of-" + written + state
+
+                def wr(e=e):
+                    with bnp.open(side, "w") as f:
+                        f.write(e)
+                    return True
+                if col.guarded(wr, pfx, case) is None:
+                    return
+                chain_check_written(col, bc, side, cur, pfx, case, readback=False)
+                state, written = "fresh", "written+"
+                continue
+            recs = [bc.records[i] for i in cur]
+            local = chain_local(recs, st)
+            cls, new_state = chain_class(st, local)
+            if cls is not None:
+                name = cls + "-of-" + (written + state if state != "fresh" or not written else "written")
+                if STATE_RANK[new_state] > STATE_RANK[state]:
+                    state = new_state
+            pfx = "chain:" + name
+            e = col.guarded(lambda e=e: chain_lib(e, st, recs), pfx + ":select", case)
+            if e is None:
+                return
+            cur = [cur[i] for i in local]
+            n = col.guarded(lambda: len(e), pfx + ":len", case)
+            if not col.check(n == len(cur), bc.one_sig or pfx + ":record-count", case, "got %r expected %d" % (n, len(cur))):
+                return
+        finals.append((e, cur))
+        want_all += cur
+    pfx = "chain:" + name
+    # in memory (first table only before the write, every table after it: the write itself reads the tables)
+    e, cur = finals[0]
+    if not chain_compare(col, bc, e, cur, pfx + ":memory", case):
+        return
+
+    def wr():
+        with bnp.open(out, "w") as f:
+            for e, _ in finals:
+                f.write(e)
+        return True
+    if col.guarded(wr, pfx + ":write", case) is None:
+        return
+    # (the library's own reading of the output only for the multi-write outputs of chunked chains: reading is the other contracts' job)
+    chain_check_written(col, bc, out, want_all, pfx + ":write", case, readback=(mode != "whole"))
+    for e, cur in finals:
+        if not chain_compare(col, bc, e, cur, pfx + ":memory-after-write", case):
+            break
+
+
+def c_chain(col, bc, param):
+    """param: {"mode": "whole" | ["chunked", c], "steps": [step, ...]}; step: a selection (see chain_local) | ["read"] (all nine
+    fields of the current table are read and compared) | ["write"] (the current table is written to a side file, checked).
+    A failing chain is attributed to its shortest failing prefix (so a defect of one selection step is not reported again
+    under the name of every longer chain that contains it)."""
+    mode, steps = param["mode"], param["steps"]
+    case = bc.case("chain", param)
+    full = Collector("C16", col.tier, col.seed, "scratch")
+    chain_run(full, bc, mode, steps, case)
+    if not full.failures:
+        return
+    found = full
+    for k in range(1, len(steps)):
+        if steps[k - 1][0] in ("read", "write"):
+            continue
+        part = Collector("C16", col.tier, col.seed, "scratch")
+        chain_run(part, bc, mode, steps[:k], case)
+        if part.failures:
+            found = part
+            break
+    for f in found.failures:
+        col.fail(f["signature"], f["case"], f["message"])
+
+
+CHAIN_RULES = [["mod", 2, 0, 1], ["mod", 2, 1, 1], ["mod", 3, 1, 0], ["drop", "mid"], ["drop", "first"], ["pred", "forward"], ["pred", "mapq>=30"],
+               ["rev"], ["rot"], ["slice", [1, None, 1]], ["slice", [None, -1, None]], ["slice", [1, -1, 1]], ["slice", [None, 2, None]],
+               ["slice", [None, None, 2]], ["slice", [None, None, -1]], ["slice", [0, 0, 1]], ["whole"]]
+CHAIN_RULES_SHORT = [["mod", 2, 0, 1], ["drop", "mid"], ["pred", "forward"], ["rev"], ["slice", [1, None, 1]], ["slice", [None, -1, None]],
+                     ["slice", [None, None, 2]]]
+
+
+def unit_slices(m):
+    return [["slice", [a, b, s]] for a in range(m + 1) for b in range(a, m + 1) for s in ((1,) if (a + b) % 2 else (None,))]
+
+
+def chain_specs(tier):
+    """(file spec, [param, ...]) of the selection chains"""
+    quick = tier == "quick"
+    out = []
+    # (1) every boolean mask of an n-record table, then EVERY unit-step slice of the filtered table
+    #     (n = 4: also with the filtered table read / written in between; also every ascending index list = the same subsets)
+    for k, n, variants in ([(0, 4, 3), (1, 5, 1)] if quick else [(0, 4, 3), (1, 5, 3), (2, 6, 1), (3, 3, 3)]):
+        ps = []
+        for m in itertools.product([False, True], repeat=n):
+            kept = [i for i in range(n) if m[i]]
+            for sl in unit_slices(len(kept)):
+                ps.append({"mode": "whole", "steps": [["mask", list(m)], sl]})
+                if variants == 3:
+                    ps.append({"mode": "whole", "steps": [["mask", list(m)], ["read"], sl]})
+                    ps.append({"mode": "whole", "steps": [["mask", list(m)], ["write"], sl]})
+                    ps.append({"mode": "whole", "steps": [["index", kept], sl]})
+        out.append(({"gen": ["chunk", k, n]}, ps))
+    # (2) every permutation / repetition-free arrangement of 3 records, then every unit-step slice
+    ps = [{"mode": "whole", "steps": [["index", list(p)], sl]} for r in (2, 3) for p in itertools.permutations(range(3), r) for sl in unit_slices(r)]
+    out.append(({"gen": ["chunk", 1, 3]}, ps))
+    # (3) every pair (thorough: also every triple over the short list) of rule selections, on whole tables
+    R, S = CHAIN_RULES, CHAIN_RULES_SHORT
+    for spec in ([{"gen": ["history", 0]}] if quick else [{"gen": ["history", 0]}, {"gen": ["history", 4]}, {"gen": ["chunk", 4, 8]}]):
+        ps = [{"mode": "whole", "steps": [a, b]} for a in R for b in R]
+        if quick:
+            ps += [{"mode": "whole", "steps": [a, mid, b]} for a in S[:4] for mid in (["read"], ["write"]) for b in S[4:]]
+            ps += [{"mode": "whole", "steps": [a, b, c]} for a in S[:3] for b in S[3:6] for c in S[4:]]
+        else:
+            ps += [{"mode": "whole", "steps": [a, mid, b]} for a in S for mid in (["read"], ["write"]) for b in S]
+            ps += [{"mode": "whole", "steps": [a, b, c]} for a in S for b in S for c in S]
+            ps += [{"mode": "whole", "steps": [a, b, ["write"], c]} for a in S[:4] for b in S[3:] for c in S[3:]]
+        out.append((spec, ps))
+    # (4) chunked reads: the chain is applied to every chunk and the results are written one after the other
+    for spec in ([{"gen": ["history", 4]}] if quick else [{"gen": ["history", 4]}, {"gen": ["chunk", 2, 8]}]):
+        F = build_file(spec)
+        sizes = [len(ref.encode_record(r)) for r in F["records"]]
+        cs = sorted({max(sizes), max(max(sizes), sum(sizes) // 5 + 1), max(max(sizes), sum(sizes) // 2 + 3)})
+        ps = []
+        for j, c in enumerate(cs[1:] if quick else cs):
+            if quick and j:
+                ps += [{"mode": ["chunked", c], "steps": [a, b]} for a in S[:3] for b in S[4:]]
+                continue
+            rules = S if (quick or c == cs[0]) else R      # smallest chunk size (many chunks): the short list
+            ps += [{"mode": ["chunked", c], "steps": [a, b]} for a in rules for b in rules]
+            ps += [{"mode": ["chunked", c], "steps": [a, mid, b]} for a in S[:3] for mid in (["read"], ["write"]) for b in S[4:6]]
+        out.append((spec, ps))
+    return out
+
+
 CONTRACTS = {"read_whole": c_read_whole, "interval": c_interval, "read_chunks": c_read_chunks, "subset": c_subset,
-             "write": c_write, "history": c_history}
+             "write": c_write, "history": c_history, "chain": c_chain}
 
 
 def evaluate(col, bc, contract, param, nontrivial=True):
@@ -921,7 +1217,8 @@ def run(tier="quick", seed=0):
                     "(names to 254, 0..8 ops, l_seq to 40/400, tags to 20 bytes, 1..8 records). distinct = (file generator args, contract, "
                     "parameter); non-trivial = every case except 0-record files. Before all that: operation histories on one decoded table "
                     "(every sequence of derived computations up to the stated length, then the table must still decode to the records) and "
-                    "files with two long reads (l_seq >= 65535) under all contracts")
+                    "files with two long reads (l_seq >= 65535) under all contracts; and selection chains (see bounds.selection_chains): "
+                    "distinct = (file, mode, sequence of selection / read / write steps)")
     col.bounds = {"references": "0..3 (+300 in one header case)", "read_name_len": "1..254",
                   "n_cigar_op": "0..4 grid, 0..%d sweep, 255, 16383, 16384%s" % (20 if quick else 60, "" if quick else ", 256, 65535"),
                   "cigar_ops": "all nine; lengths " + str(CLEN), "l_seq": "0..%d grid, 0..%d sweep, 70001" % (7 if quick else 9, 40 if quick else 300),
@@ -944,6 +1241,24 @@ def run(tier="quick", seed=0):
                 break
         col.bounds["history_part_wall_s"] = round(time.time() - col.t0, 1)
         col.bounds["history_aux_step_exceptions"] = sorted(AUX_EXC)
+        # selection chains (their wall time is added to the budget of the parts below, which keep the budget they had)
+        t_chain = time.time()
+        n_chain = 0
+        for spec, params in chain_specs(tier):
+            bc = BamCase(spec, tmp)
+            for param in params:
+                evaluate(col, bc, "chain", param)
+                n_chain += 1
+            if col.out_of_time():
+                break
+        col.bounds["selection_chains"] = ("%d chains: every boolean mask (and ascending index list) of a 3..%d-record table followed by EVERY "
+                                          "unit-step slice of the filtered table, plain / with the filtered table read / written in between; every "
+                                          "arrangement of 2..3 of 3 records followed by every unit-step slice; every pair of %d rule selections "
+                                          "(masks by position and by column predicate, index arrays, unit / strided / reversed / empty slices) and "
+                                          "triples over %d of them on whole tables; pairs on every chunk of chunked reads (2..3 chunk sizes), "
+                                          "results written one after the other" % (n_chain, 5 if quick else 6, len(CHAIN_RULES), len(CHAIN_RULES_SHORT)))
+        col.bounds["selection_chains_wall_s"] = round(time.time() - t_chain, 1)
+        col.budget_s += time.time() - t_chain
         for spec, chunks, sels in file_specs(tier):
             bc = BamCase(spec, tmp)
             standard(col, bc, chunks, sels, quick=quick)
@@ -952,7 +1267,7 @@ def run(tier="quick", seed=0):
         # sampling above the bounds
         t_exh = time.time()
         i = 0
-        limit = 60 if quick else 420
+        limit = (60 if quick else 420) + col.bounds["selection_chains_wall_s"]
         while not col.out_of_time():
             if quick and i >= 40:
                 break
